@@ -3,8 +3,8 @@
 Require Extraction.
 Require Import ExtrOcamlBasic.
 From Coq Require Import NArith List.
-From OQ3 Require Import Model.Types Model.TypesSpec Model.TypeRules Model.TypeRulesSpec Model.Declared Model.Literals Model.Usage Model.SymTab Model.Scoping Model.Lexer Model.Lexed Model.Parser Model.Grammar Model.Builder Model.Shape Model.Graph Model.Accept.
+From OQ3 Require Import Model.Types Model.TypesSpec Model.TypeRules Model.TypeRulesSpec Model.Declared Model.Literals Model.Usage Model.SymTab Model.Scoping Model.Lexer Model.Lexed Model.Parser Model.Grammar Model.Builder Model.Shape Model.Graph Model.Accept Model.Include.
 Extraction Language OCaml.
 Separate Extraction
-  Model.Types Model.TypesSpec Model.TypeRules Model.TypeRulesSpec Model.Declared Model.Literals Model.Usage Model.SymTab Model.Scoping Model.Lexer Model.Lexed Model.Parser Model.Grammar Model.Builder Model.Shape Model.Graph Model.Accept
+  Model.Types Model.TypesSpec Model.TypeRules Model.TypeRulesSpec Model.Declared Model.Literals Model.Usage Model.SymTab Model.Scoping Model.Lexer Model.Lexed Model.Parser Model.Grammar Model.Builder Model.Shape Model.Graph Model.Accept Model.Include
   N.of_nat N.to_nat N.add N.mul N.eqb N.leb N.ltb N.succ N.div N.modulo Pos.to_nat.
